@@ -18,10 +18,11 @@ structure Cfg where
   shutdownAlways : Bool       -- every close path runs the whole once body (no early return on the flag)
   reportIfFirst : Bool        -- an error is reported only by the path that won the once
   farewellInsideOnce : Bool   -- CloseDataConnection writes its close frame after marking the connection closed
+  readerRechecks : Bool       -- the read pump tests the closed flag again after a read returned, before it looks at the result
   deriving DecidableEq, Repr
 
-def Cfg.fixed : Cfg := { pumpClosesQueue := false, writeSelectsClose := true, shutdownAlways := true, reportIfFirst := true, farewellInsideOnce := true }
-def Cfg.pinned : Cfg := { pumpClosesQueue := true, writeSelectsClose := false, shutdownAlways := false, reportIfFirst := false, farewellInsideOnce := false }
+def Cfg.fixed : Cfg := { pumpClosesQueue := false, writeSelectsClose := true, shutdownAlways := true, reportIfFirst := true, farewellInsideOnce := true, readerRechecks := true }
+def Cfg.pinned : Cfg := { pumpClosesQueue := true, writeSelectsClose := false, shutdownAlways := false, reportIfFirst := false, farewellInsideOnce := false, readerRechecks := true }
 
 abbrev Msg := Nat
 
@@ -54,6 +55,8 @@ structure S where
   peerGot : List Msg := []          -- messages written to the transport, in order
   delivered : List Msg := []        -- messages handed to the SHIP layer, in order
   deliveredAfterClose : Nat := 0
+  gotLate : Bool := false           -- the item the reader holds was returned by a read that ended after the close
+  lateDelivered : Nat := 0          -- messages delivered although their read ended after the close
   reports : Nat := 0                -- ReportConnectionError calls
   localFirst : Bool := false        -- the once was won by a local close
   localClosing : Bool := false      -- a deliberate local close has begun (its close frame is on the wire)
@@ -69,6 +72,7 @@ inductive Act
   | wClosed                 -- the close-channel case of the select
   | pumpTake | pumpCheck | pumpWrite (ok : Bool) | pumpExit
   | rStart | rReturn | rCheck | rDeliver
+  | rReturnBuf              -- the read returns data the library had already taken from the socket, closed or not
   | peerSend | peerFail     -- peer sends a message / closes, fails, sends a bad frame
   | localCloseBegin         -- CloseDataConnection with a reason: the close frame is written
   | localClose
@@ -157,15 +161,22 @@ def step (c : Cfg) (s : S) : Act → S
   | .rReturn =>
     match s.reader with
     | .reading =>
-      if s.sock then { s with reader := .got .fail }
+      if s.sock then { s with reader := .got .fail, gotLate := s.closed }
       else match s.inbound with
         | [] => s
-        | i :: rest => { s with reader := .got i, inbound := rest }
+        | i :: rest => { s with reader := .got i, inbound := rest, gotLate := s.closed }
+    | _ => s
+  | .rReturnBuf =>
+    match s.reader with
+    | .reading =>
+      match s.inbound with
+      | [] => s
+      | i :: rest => { s with reader := .got i, inbound := rest, gotLate := s.closed }
     | _ => s
   | .rCheck =>
     match s.reader with
     | .got i =>
-      if s.closed then { s with reader := .exited }
+      if c.readerRechecks && s.closed then { s with reader := .exited }
       else match i with
         | .fail => { (readErrorPath c s) with reader := .exited }
         | .msg m => { s with reader := .checked m }
@@ -174,7 +185,8 @@ def step (c : Cfg) (s : S) : Act → S
     match s.reader with
     | .checked m =>
       { s with reader := .idle, delivered := s.delivered ++ [m],
-               deliveredAfterClose := if s.closed then s.deliveredAfterClose + 1 else s.deliveredAfterClose }
+               deliveredAfterClose := if s.closed then s.deliveredAfterClose + 1 else s.deliveredAfterClose,
+               lateDelivered := if s.gotLate then s.lateDelivered + 1 else s.lateDelivered }
     | _ => s
   | .peerSend => { s with inbound := s.inbound ++ [.msg s.next], next := s.next + 1 }
   | .peerFail => { s with inbound := s.inbound ++ [.fail] }
